@@ -22,13 +22,36 @@ import (
 type Depth struct{}
 
 type DepthPlan struct {
-	Path   string        `json:"path"`
-	Depth  int           `json:"depth"`
-	Mix    int           `json:"mix"`  // 0 arrays, 1 objects, 2 alternating
-	Leaf   string        `json:"leaf"` // "", scalar, empty array/object ...
-	Split  int           `json:"split"`
-	Read   core.ReadPlan `json:"read"`
-	Cyclic string        `json:"cyclic,omitempty"`
+	Path       string        `json:"path"`
+	Depth      int           `json:"depth"`
+	Mix        int           `json:"mix"`  // 0 arrays, 1 objects, 2 alternating
+	Leaf       string        `json:"leaf"` // "", scalar, empty array/object ...
+	Split      int           `json:"split"`
+	Read       core.ReadPlan `json:"read"`
+	Cyclic     string        `json:"cyclic,omitempty"`
+	GoLeaf     int           `json:"go_leaf,omitempty"` // 1-based index into goLeaves for the Marshal paths; 0: derived from Leaf
+	GoLeafName string        `json:"go_leaf_name,omitempty"`
+}
+
+// goLeaves are innermost Go values for the marshal-side depth paths: every
+// shape for which the library has (or could grow) a shortcut that writes an
+// empty container without going through the generic container code.
+var goLeaves = []struct {
+	name  string
+	v     any
+	extra int // levels the leaf itself adds
+}{
+	{"nil", nil, 0}, {"int", 1, 0}, {"[]int{}", []int{}, 1}, {"map[string]int{}", map[string]int{}, 1},
+	{"struct{}", struct{}{}, 1}, {"*struct{}", &struct{}{}, 1},
+	{"struct-dash-only", struct {
+		A int `json:"-"`
+	}{}, 1}, {"[0]int", [0]int{}, 1}, {"Value{}", jsontext.Value(`{}`), 1}, {"Value[]", jsontext.Value(`[]`), 1},
+	{"Value[ ]", jsontext.Value(` [ ] `), 1}, {"struct-all-omitted", struct {
+		A []int `json:",omitempty"`
+	}{}, 1}, {"nil-slice", []int(nil), 1}, {"nil-map", map[string]int(nil), 1},
+	{"*[]int", &[]int{}, 1}, {"[]any{}", []any{}, 1}, {"map[string]any{}", map[string]any{}, 1},
+	{"[1]struct{}", [1]struct{}{}, 2}, {"[]any{map{}}", []any{map[string]any{}}, 2}, {"[]struct{}{{}}", []struct{}{{}}, 2},
+	{"map-of-empty-struct", map[string]struct{}{"k": {}}, 2}, {"*int", new(int), 0}, {"string", "", 0},
 }
 
 var depthPaths = []string{"ReadToken", "ReadValue", "SkipValue", "split-ReadValue", "split-SkipValue", "IsValid", "Format", "Compact", "Indent", "Canonicalize", "WriteToken", "WriteValue", "split-WriteValue",
@@ -66,6 +89,10 @@ func (sc *Depth) plan(t *core.Tape) *DepthPlan {
 		p.Read.Cuts = []int{rs.Draw(60000), rs.Draw(60000)}
 	case 3:
 		p.Read.MaxChunk = 1
+	}
+	if gs := t.S("go-leaf"); gs.Chance(2, 3) {
+		p.GoLeaf = 1 + gs.Draw(len(goLeaves))
+		p.GoLeafName = goLeaves[p.GoLeaf-1].name
 	}
 	p.Cyclic = []string{"pointer-self", "map-self", "slice-self", "interface-pointer", "pointer-to-pointer", "struct-ring", "deep-then-cycle", "two-pointer-types", "double-pointer", "interface-in-struct-pointer"}[s.Draw(10)]
 	return p
@@ -168,7 +195,9 @@ func (sc *Depth) Run(t *core.Tape, env *Env) (any, []core.Violation) {
 	switch p.Path {
 	case "ReadToken", "ReadValue", "SkipValue":
 		d, sim := newDec()
-		guard(p.Path, func() error { return loopDec(d, map[string]byte{"ReadToken": 'T', "ReadValue": 'V', "SkipValue": 'S'}[p.Path]) })
+		guard(p.Path, func() error {
+			return loopDec(d, map[string]byte{"ReadToken": 'T', "ReadValue": 'V', "SkipValue": 'S'}[p.Path])
+		})
 		st.Fault("read/short", sim.NShort)
 	case "split-ReadValue", "split-SkipValue":
 		d, _ := newDec()
@@ -325,6 +354,9 @@ func (sc *Depth) Run(t *core.Tape, env *Env) (any, []core.Violation) {
 				v = []any{map[string]any{}}
 				nest = p.Depth + 2
 			}
+			if p.GoLeaf > 0 {
+				v, nest = goLeaves[p.GoLeaf-1].v, p.Depth+goLeaves[p.GoLeaf-1].extra
+			}
 			wantOK = nest <= 10000
 			return json.MarshalEncode(e, v)
 		})
@@ -428,6 +460,9 @@ func (sc *Depth) deepValue(p *DepthPlan) (any, int) {
 			v = nil
 		default:
 			v = 1.5
+		}
+		if p.GoLeaf > 0 && p.Path != "Marshal-reenter" {
+			v, nest = goLeaves[p.GoLeaf-1].v, d+goLeaves[p.GoLeaf-1].extra
 		}
 		if p.Path == "Marshal-reenter" {
 			// a peer half-way down re-enters Marshal (on a fresh encoder) and then writes one value
